@@ -35,7 +35,7 @@ def main():
     patch = (wt / "seed_patch.diff").read_text()
     demo = (wt / "seed_demo.py").read_text()
     meta = json.loads((wt / "seed_meta.json").read_text()) if (wt / "seed_meta.json").exists() else {}
-    root = Path(tempfile.mkdtemp(prefix="seedchk.", dir="/dev/shm"))
+    root = Path(tempfile.mkdtemp(prefix="seedchk.", dir="/tmp"))   # same file system kind as /repo: two doctests depend on directory listing order
     report = {"property": prop, "agent_meta": meta}
     try:
         repo = root / "repo"
@@ -54,7 +54,13 @@ def main():
         r1 = sh([PY, "seed_demo.py"], cwd=repo, env=env)
         report["demo_patched_exit"] = r1.returncode
         report["demo_patched_tail"] = (r1.stdout + r1.stderr)[-600:]
-        rb = sh([str(VERIF / "baseline.sh")], env=dict(env, REPO_DIR=str(repo)))
+        # baseline and checks run on a second, fresh patched copy (demos may leave a partial data tree behind,
+        # which makes the suite's own data generation skip)
+        repo_b = root / "repo_b"
+        shutil.copytree("/repo", repo_b, ignore=shutil.ignore_patterns(".git", "__pycache__", "docs", "*.pyc", "SPIL_PROJECTS"))
+        sh(["patch", "-p1", "-s", "-i", str(root / "p.diff")], cwd=repo_b)
+        rb = sh([str(VERIF / "baseline.sh")], env=dict(env, REPO_DIR=str(repo_b)))
+        repo = repo_b
         report["baseline_with_patch"] = rb.stdout.strip().splitlines()[:6]
         report["baseline_ok"] = rb.returncode == 0
         checks = a.checks if a.checks is not None else [prop]
